@@ -99,7 +99,8 @@ fn invoke_catalogue() -> Vec<(&'static str, String)> {
 
 fn doc(faults: &[Fault], inv: &[(&'static str, String)]) -> String {
     let mut s = String::new();
-    s.push_str("<scxml xmlns=\"http://www.w3.org/2005/07/scxml\" version=\"1.0\" datamodel=\"rfsm-expression\" name=\"faulty\" initial=\"run\">\n");
+    let dm = if std::env::var("VERIF_EXPERIMENT_ECMA").is_ok() { "ecmascript" } else { "rfsm-expression" };
+    s.push_str(&format!("<scxml xmlns=\"http://www.w3.org/2005/07/scxml\" version=\"1.0\" datamodel=\"{}\" name=\"faulty\" initial=\"run\">\n", dm));
     s.push_str(" <datamodel><data id=\"x\" expr=\"1\"/><data id=\"arr\" expr=\"[1, 2, 3]\"/><data id=\"nest\" expr=\"[[5]]\"/><data id=\"node\" expr=\"{'next':{'next':null}}\"/><data id=\"tv\" expr=\"'#_internal'\"/><data id=\"ev\" expr=\"'x.ok'\"/><data id=\"it\" expr=\"0\"/></datamodel>\n <state id=\"run\">\n");
     s.push_str("  <transition event=\"ping\"><script>mark('pong')</script></transition>\n");
     s.push_str("  <transition event=\"error\"><script>mark('err', _event.name, _event.sendid)</script></transition>\n");
